@@ -165,20 +165,32 @@ def run(ck):
 
     # ------------------------------------------------------------------ R4
     go = m.func("Expr.get_object")
-    gets = [c for c in walk_body(go) if isinstance(c, ast.Call) and isinstance(c.func, ast.Attribute)
-            and c.func.attr == "get" and dotted(c.func.value) == "Expr.args2expr"]
+    res = Resolver(go)
+    # lookups of the table in any idiom: .get(K), table[K] (load), K in table
+    look = []
+    for c in walk_body(go):
+        if isinstance(c, ast.Call) and isinstance(c.func, ast.Attribute) and c.func.attr in ("get", "setdefault") and dotted(c.func.value) == "Expr.args2expr" and c.args:
+            look.append(c.args[0])
+        if isinstance(c, ast.Subscript) and isinstance(c.ctx, ast.Load) and dotted(c.value) == "Expr.args2expr":
+            look.append(c.slice)
+        if isinstance(c, ast.Compare) and len(c.ops) == 1 and isinstance(c.ops[0], (ast.In, ast.NotIn)) and dotted(c.comparators[0]) == "Expr.args2expr":
+            look.append(c.left)
     sets = [n for n in walk_body(go) if isinstance(n, ast.Assign) and any(
         isinstance(t, ast.Subscript) and dotted(t.value) == "Expr.args2expr" for t in n.targets)]
-    ck.need(gets and sets, "Expr.get_object: table lookup/store not found")
-    kget = norm(gets[0].args[0])
-    kset = norm([t for t in sets[0].targets if isinstance(t, ast.Subscript)][0].slice)
+    setd = [c for c in walk_body(go) if isinstance(c, ast.Call) and isinstance(c.func, ast.Attribute) and c.func.attr == "setdefault" and dotted(c.func.value) == "Expr.args2expr"]
+    ck.need(look and (sets or setd), "Expr.get_object: table lookup/store not found")
+    kgets = set(res.expand(k) for k in look)
+    ksets = set(res.expand([t for t in n.targets if isinstance(t, ast.Subscript)][0].slice) for n in sets) | set(res.expand(c.args[0]) for c in setd)
     pn = [a.arg for a in go.args.args]
-    ck.ob("R4", "Expr.get_object:key", kget == kset and all(p in kget for p in pn), m.where(go),
-          "lookup key `%s` and store key `%s` differ or omit a parameter of %s" % (kget, kset, pn))
-    stored = norm(sets[0].value)
+    one = len(kgets | ksets) == 1
+    kget = sorted(kgets)[0]
+    kset = sorted(ksets)[0]
+    import re as _re
+    ck.ob("R4", "Expr.get_object:key", one and all(_re.search(r"\b%s\b" % p_, kget) for p_ in pn), m.where(go),
+          "lookup key(s) %s and store key(s) %s differ or omit a parameter of %s" % (sorted(kgets), sorted(ksets), pn))
+    stored = norm(sets[0].value) if sets else (norm(setd[0]) if setd else "?")
     rets = [norm(n.value) for n in walk_body(go) if isinstance(n, ast.Return) and n.value is not None]
-    res = Resolver(go)
-    ck.ob("R4", "Expr.get_object:returns-stored", stored in rets, m.where(go),
+    ck.ob("R4", "Expr.get_object:returns-stored", stored in rets or any(res.expand(ast.parse(r_, mode="eval").body) == res.expand(ast.parse(stored, mode="eval").body) for r_ in rets), m.where(go),
           "the object stored in the table (`%s`) is not the one returned (%s)" % (stored, rets))
     newi = m.func("ExprInt.__new__")
     masked = any(isinstance(n, ast.Assign) and isinstance(n.value, ast.BinOp) and isinstance(n.value.op, ast.BitAnd)
